@@ -29,6 +29,9 @@ P = {
  "C07": dict(level="other", tech="step obligations of an inductive invariant, each decided by abstract interpretation: emitted length (Emitter cells) = decoded length (Step cells) per opcode and width; refusal iff width mismatch; REP/SEP tracker bits (abstract bits evaluated at each operand byte) = CPU M/X after the Step cell with that operand; mod-set of the tracker and of CPU M/X over all emittable opcodes",
    text="The property is an invariant over all straight-line programs; its induction step is a finite set of per-instruction obligations, all discharged statically for every operand value and width state (90 methods x 16 cells, 2 x 4096 REP/SEP cells, every emittable opcode). The base case and 'no taken transfer / no PLP, RTI' are hypotheses stated by the property itself.",
    note="Trusted: go/ssa, absint, ref/isa65816.json, P layout bit5=M bit4=X. XCE is not emittable (checked: no method emits an opcode that changes M/X other than REP/SEP/PLP/RTI).", ref="4 C07"),
+ "C14": dict(level="other", tech="abstract interpretation of the three trace renderers per opcode x M,X,E cell with formatter calls recorded as path-guarded render events: unchanged-state (mod-set) check, instruction bytes read vs Step's decoded length, operand-byte order per addressing mode, branch-destination term vs Step's target (gated terms restricted to the render path), dependence on stale register copies; SSA structural rules on RunUntil's logging region",
+   text="Truthfulness clauses that are visible in the shape of the renderer (which bytes, which order, which register copy, which destination term, no side effect) are decided for every register/memory valuation of each cell; non-perturbation follows from the renderer's empty mod-set plus the structural confinement of Logger in RunUntil. Punctuation/spacing of the line and the cycles column are not checked.",
+   note="Trusted: go/ssa, absint, ref/isa65816.json; xbuf.B and fmt append what they are given; Logger.Write (user code) does not touch the CPU.", ref="4 C14"),
 }
 reasons_pending = "no check is registered for this property at this commit (machinery not built yet); see DESIGN.md section 4 for the planned static rules"
 
